@@ -153,7 +153,10 @@ def sys2Flow (s : Sys2St) (w : List String) (res : String) : Option String :=
   let good := b.startsWith "echo" || b.startsWith "stall"
   let accepted := kvOf rw "acc" != "-" && kvOf rw "acc" != ""
   if (rw.headD "").startsWith "fail" && good && accepted && kvOf w "cancel" == "" && !(onP && s.pDisturbed)
-      && s.unclaimedBound ≤ 4 then
+      && s.unclaimedBound ≤ 4
+      -- a handler that accepts only at (or within one poll of) the accept deadline may find the
+      -- message already discarded by the accept-timeout sweep: the property allows that
+      && kvNat rw "acc" + 80 < Consts.acceptTimeoutMs then
     some s!"exchange {k} was accepted by a handler that answers, nothing closed its session, yet it failed: {rw.headD ""}"
   else none
 
